@@ -9,6 +9,7 @@ the same coding); the Rust side uses the real types and its `{:?}` output is dec
   opt         Option<u32>                   None -> 0, Some(n) -> n + 1
   bool        bool                          false -> 0, true -> 1
   pair        (u32, u32)                    a * 64 + b        (lexicographic = numeric on codes, components < 64)
+  prod        Product<(u32, Dual<u32>)>     a * 64 + b        (component-wise: a upwards, b downwards)
   set         Set<u32>                      bit mask          (elements < 16)
   bset        BoundedSet<2, u32>            TOP -> -1, else bit mask with at most 2 bits
   cp          ConstPropagation<u32>         Bottom -> -1, Top -> -2, Constant(n) -> n
@@ -30,6 +31,7 @@ LTYPES = {
     "opt": (2, "Option<u32>"),
     "bool": (3, "bool"),
     "pair": (4, "(u32, u32)"),
+    "prod": (5, "ascent::lattice::Product<(u32, ascent::Dual<u32>)>"),
     "set": (6, "ascent::lattice::set::Set<u32>"),
     "bset": (7, "ascent::lattice::bounded_set::BoundedSet<2, u32>"),
     "cp": (8, "ascent::lattice::constant_propagation::ConstPropagation<u32>"),
@@ -46,6 +48,8 @@ def join(ty, a, b):
         return max(a, b)
     if ty == "dual":
         return min(a, b)
+    if ty == "prod":
+        return max(a // PAIRK, b // PAIRK) * PAIRK + min(a % PAIRK, b % PAIRK)
     if ty == "set":
         return a | b
     if ty == "bset":
@@ -80,6 +84,8 @@ def rust_value(ty, c):
         return "true" if c else "false"
     if ty == "pair":
         return "(%du32, %du32)" % (c // PAIRK, c % PAIRK)
+    if ty == "prod":
+        return "ascent::lattice::Product((%du32, ascent::Dual(%du32)))" % (c // PAIRK, c % PAIRK)
     if ty == "set":
         return "ascent::lattice::set::Set([%s].into_iter().collect())" % ", ".join("%du32" % i for i in range(SETN) if c >> i & 1)
     if ty == "bset":
@@ -114,6 +120,9 @@ def decode(ty, s):
         return {"true": 1, "false": 0}[s]
     if ty == "pair":
         m = re.fullmatch(r"\((\d+), (\d+)\)", s)
+        return int(m.group(1)) * PAIRK + int(m.group(2))
+    if ty == "prod":
+        m = re.fullmatch(r"Product\(\((\d+), (\d+)\)\)", s)
         return int(m.group(1)) * PAIRK + int(m.group(2))
     if ty == "set":
         return _mask(s)
@@ -183,6 +192,9 @@ FUNS = {
     # (u32, u32)
     "pair_of": (270, 2, "(($0 as u32), ($1 as u32))", lambda x, y: x * PAIRK + y),
     "pair_id": (271, 1, "$0.clone()", lambda l: l),
+    # Product<(u32, Dual<u32>)>
+    "prod_of": (280, 2, "ascent::lattice::Product((($0 as u32), ascent::Dual($1 as u32)))", lambda x, y: x * PAIRK + y),
+    "prod_id": (281, 1, "$0.clone()", lambda l: l),
 }
 PREDS = {
     **{n: (t[0], t[1], t[2], None) for n, t in dl.PREDS.items()},
@@ -234,6 +246,7 @@ FUN_SIG = {
     "cp_const": ("cp", ["p"]), "cp_add": ("cp", ["cp", "cp"]), "cp_id": ("cp", ["cp"]),
     "b_or": ("bool", ["bool", "bool"]), "b_and": ("bool", ["bool", "bool"]), "b_id": ("bool", ["bool"]),
     "pair_of": ("pair", ["p", "p"]), "pair_id": ("pair", ["pair"]),
+    "prod_of": ("prod", ["p", "p"]), "prod_id": ("prod", ["prod"]),
 }
 PRED_SIG = {
     "dual_le4": ["dual"], "dual_le2": ["dual"], "dual_lex": ["dual", "p"], "dualv_le3": ["dv"],
